@@ -89,6 +89,14 @@ def arg_code(atom, n, v, prefix):
         return [], ["%s%s" % (prefix, v[0])], []
     if isinstance(atom, A.ClsArg):
         return [], ["&zz_obj%d" % v], []
+    if isinstance(atom, A.StructArg):
+        ti, td = A.NATIVE["int"], A.NATIVE["double"]
+        if atom.intent == "out":
+            s = ["%spt %s; memset(&%s, 0x55, sizeof %s);" % (prefix, z, z, z)]
+        else:
+            s = ["%spt %s; %s.i = %s; %s.d = %s;" % (prefix, z, z, A.clit(ti, v[0]), z, A.clit(td, v[1]))]
+        p = [obs_scalar(ti, z + ".i"), obs_scalar(td, z + ".d")] if atom.intent != "in" else []
+        return s, [z if atom.form == "val" else "&" + z], p
     raise NotImplementedError(atom.id)
 
 
@@ -116,6 +124,9 @@ def recv_c(atom, n, v):
     return atom.recv(n, v)
 
 
+STRUCT_PREFIX = [""]  # set by driver(): the C name of the struct type is <prefix>pt
+
+
 def res_code(res, call, extra):
     if isinstance(res, A.VoidRes):
         return [call + ";"]
@@ -133,6 +144,10 @@ def res_code(res, call, extra):
         return ["{ %s *zz_r = %s; %s }" % (res.t.cname, call, obs_arr(res.t, "zz_r", extra))]
     if isinstance(res, A.EnumRes):
         return ["{ int zz_r = %s; obs_i(zz_r); }" % call]
+    if isinstance(res, A.StructRes):
+        if res.form == "val":
+            return ["{ %spt zz_r = %s; obs_i(zz_r.i); obs_d(zz_r.d); }" % (STRUCT_PREFIX[0], call)]
+        return ["{ %spt *zz_r = %s; obs_i(zz_r->i); obs_d(zz_r->d); }" % (STRUCT_PREFIX[0], call)]
     raise NotImplementedError(res.id)
 
 
@@ -170,6 +185,7 @@ def c_name(func, namer, omit=0, ndef=0):
 
 
 def driver(lib, plans_by_func, headers, prefix, namer, extra_main=""):
+    STRUCT_PREFIX[0] = prefix
     out = [C_PRELUDE] + ['#include "%s"' % h for h in headers] + ["int main(void) {"]
     if "class" in lib.needs():
         out += ["  %sCls zz_obj11, zz_obj22;" % prefix, "  %sCls_ctor(11, &zz_obj11);" % prefix, "  %sCls_ctor(22, &zz_obj22);" % prefix]
